@@ -145,6 +145,66 @@ theorem C14_sign_rule_sparse_dense_path [Field α] [LinearOrder α] [IsStrictOrd
   have := flipSigns_rule (takeCols (permRows V (argsortDescAbs w)) r) r k hV (by simpa [takeCols] using hm) hk
   simpa [nvecsPostSparseDense, takeCols] using this
 
+/-! ### the whole call, relative to the contract of the solver service -/
+
+/-- `tensor.nvecs(n, r, flipsign)` end to end: the matrix `Y` handed to the solver is `X₍ₙ₎X₍ₙ₎ᵀ`; if the
+solver keeps its contract on it (`ServiceOK`: orthonormal eigenpairs in any order, `r` of them on the
+iterative path `r < size-1`, all on the dense path), the returned `size × r` matrix has orthonormal
+columns that are eigenvectors of `Y`, column `k` for `lam k`, with `|lam|` decreasing. -/
+theorem C14_nvecs_dense [Field α] [LinearOrder α] [IsStrictOrderedRing α] (svc : EigService α) (T : Dense α)
+    (hT : T.WF) (n r : Nat) (flip : Bool) (hn : n < T.shape.length) (hr : r ≤ T.shape.getD n 0)
+    (hs : ∀ Y, T.nvecsGram n = .ok Y → ServiceOK svc false Y (T.shape.getD n 0) r) :
+    ∃ Y R, T.nvecsGram n = .ok Y ∧ T.nvecs svc n r flip = .ok R ∧
+      (∀ a b, a < T.shape.getD n 0 → b < T.shape.getD n 0 → Y.get a b = gramSpec T.get T.shape n a b) ∧
+      R.length = T.shape.getD n 0 ∧ (∀ row ∈ R, row.length = r) ∧ OrthonormalCols R (T.shape.getD n 0) r ∧
+      ∃ lam : Nat → α, (∀ k, k < r → IsEigCol Y R (T.shape.getD n 0) k (lam k)) ∧
+        (∀ k l, k ≤ l → l < r → |lam l| ≤ |lam k|) := by
+  obtain ⟨Y, h1, h2, _, h4⟩ := gram_dense T hT n hn
+  obtain ⟨g1, g2, g3, g4⟩ := nvecsFromGram_contract svc false Y _ r flip h2 hr (by simp) (hs Y h1)
+  exact ⟨Y, _, h1, by simp [Dense.nvecs, h1, Except.map], h4, g1, g2, g3, g4⟩
+
+/-- `ktensor.nvecs` end to end (as `C14_nvecs_dense`). -/
+theorem C14_nvecs_kruskal [Field α] [LinearOrder α] [IsStrictOrderedRing α] (svc : EigService α) (K : Ktensor α)
+    (hK : K.WF) (n r : Nat) (flip : Bool) (hn : n < K.factors.length) (hr : r ≤ K.shape.getD n 0)
+    (hs : ∀ Y, K.nvecsGram n = .ok Y → ServiceOK svc false Y (K.shape.getD n 0) r) :
+    ∃ Y R, K.nvecsGram n = .ok Y ∧ K.nvecs svc n r flip = .ok R ∧
+      (∀ a b, a < K.shape.getD n 0 → b < K.shape.getD n 0 → Y.get a b = gramSpec K.get K.shape n a b) ∧
+      R.length = K.shape.getD n 0 ∧ (∀ row ∈ R, row.length = r) ∧ OrthonormalCols R (K.shape.getD n 0) r ∧
+      ∃ lam : Nat → α, (∀ k, k < r → IsEigCol Y R (K.shape.getD n 0) k (lam k)) ∧
+        (∀ k l, k ≤ l → l < r → |lam l| ≤ |lam k|) := by
+  obtain ⟨Y, h1, h2, _, h4⟩ := gram_kruskal K hK n hn
+  obtain ⟨g1, g2, g3, g4⟩ := nvecsFromGram_contract svc false Y _ r flip h2 hr (by simp) (hs Y h1)
+  exact ⟨Y, _, h1, by simp [Ktensor.nvecs, h1, Except.map], h4, g1, g2, g3, g4⟩
+
+/-- `ttensor.nvecs` end to end (as `C14_nvecs_dense`). -/
+theorem C14_nvecs_tucker [Field α] [LinearOrder α] [IsStrictOrderedRing α] (svc : EigService α) (T : Ttensor α)
+    (hT : T.WFn) (n r : Nat) (flip : Bool) (hn : n < T.factors.length) (hr : r ≤ T.shape.getD n 0)
+    (hs : ∀ Y, T.nvecsGram n = .ok Y → ServiceOK svc false Y (T.shape.getD n 0) r) :
+    ∃ Y R, T.nvecsGram n = .ok Y ∧ T.nvecs svc n r flip = .ok R ∧
+      (∀ a b, a < T.shape.getD n 0 → b < T.shape.getD n 0 → Y.get a b = gramSpec T.get T.shape n a b) ∧
+      R.length = T.shape.getD n 0 ∧ (∀ row ∈ R, row.length = r) ∧ OrthonormalCols R (T.shape.getD n 0) r ∧
+      ∃ lam : Nat → α, (∀ k, k < r → IsEigCol Y R (T.shape.getD n 0) k (lam k)) ∧
+        (∀ k l, k ≤ l → l < r → |lam l| ≤ |lam k|) := by
+  obtain ⟨Y, h1, h2, _, h4⟩ := gram_tucker T hT n hn
+  obtain ⟨g1, g2, g3, g4⟩ := nvecsFromGram_contract svc false Y _ r flip h2 hr (by simp) (hs Y h1)
+  exact ⟨Y, _, h1, by simp [Ttensor.nvecs, h1, Except.map], h4, g1, g2, g3, g4⟩
+
+/-- `sptensor.nvecs` end to end on the ITERATIVE path `r < size - 1` (repaired code).  The dense-solver
+path is excluded: it is the known finding shown in `C14_sparse_dense_path_counterexample`. -/
+theorem C14_nvecs_sparse_iterative_path [Field α] [LinearOrder α] [IsStrictOrderedRing α] (svc : EigService α)
+    (S : Sparse α) (hS : S.WF) (n r : Nat) (flip : Bool) (hn : n < S.shape.length)
+    (hns : S.shape.all (· == 1) = false) (hr : r + 1 < S.shape.getD n 0)
+    (hs : ∀ Y, S.nvecsGram n = .ok Y → ServiceOK svc true Y (S.shape.getD n 0) r) :
+    ∃ Y R, S.nvecsGram n = .ok Y ∧ S.nvecs svc n r flip = .ok R ∧
+      (∀ a b, a < S.shape.getD n 0 → b < S.shape.getD n 0 → Y.get a b = gramSpec S.get S.shape n a b) ∧
+      R.length = S.shape.getD n 0 ∧ (∀ row ∈ R, row.length = r) ∧ OrthonormalCols R (S.shape.getD n 0) r ∧
+      ∃ lam : Nat → α, (∀ k, k < r → IsEigCol Y R (S.shape.getD n 0) k (lam k)) ∧
+        (∀ k l, k ≤ l → l < r → |lam l| ≤ |lam k|) := by
+  obtain ⟨Y, h1, h2, _, h4⟩ := gram_sparse S hS n hn hns
+  obtain ⟨g1, g2, g3, g4⟩ := nvecsFromGram_contract svc true Y _ r flip h2 (by omega)
+    (fun _ => (C14_solver_choice _ r).1.2 hr) (hs Y h1)
+  exact ⟨Y, _, h1, by simp [Sparse.nvecs, h1, Except.map], h4, g1, g2, g3, g4⟩
+
 /-! ### equal matrices, equal leading subspaces -/
 
 /-- Spectral gap at `r` ⇒ the leading invariant subspace is unique.  Let `G` have the complete
@@ -218,6 +278,14 @@ theorem C14_sparse_dense_path_counterexample :
   decide
 
 /-! ### non-vacuity -/
+
+/-- the service contract is satisfiable by eigenpairs that are NOT in decreasing order. -/
+example : EigContract ([[4, 0], [0, 1]] : Mat Int) 2 2 [1, 4] [[0, 1], [1, 0]] :=
+  ⟨by decide, by decide, by decide, by unfold IsEigCol mulCol; decide, by
+    intro j k hj hk
+    have hj' : j = 0 ∨ j = 1 := by omega
+    have hk' : k = 0 ∨ k = 1 := by omega
+    rcases hj' with rfl | rfl <;> rcases hk' with rfl | rfl <;> decide⟩
 
 example : (⟨[2, 2], [1, 3, 2, 0]⟩ : Dense Int).nvecsGram 0 = .ok [[5, 3], [3, 9]] := by decide
 example : (⟨[1, 2], [[[1, 0], [0, 1]], [[1, 1], [0, 1]]]⟩ : Ktensor Int).nvecsGram 1 = .ok [[5, 4], [4, 4]] := by
